@@ -36,6 +36,16 @@ CHECKS = {
             "Grouping map: every history of length <= 7 (8) over {insert(k,v,Local|Global), begin_group, end_group} on both GroupingHashMap and GroupingVec without merging, and BFS to depth 11 (14) with merging on the container's own iter_all/drain state, compared with reftex::scope after every step; replay law from_iter(iter_all()) checked at every state incl. continuations. Interner: every history <= 5 (6) of get_or_intern/get/resolve over prefix-sharing strings under RandomState and under a constant hasher, with a serde round trip at every position. KMP matcher: every pattern <= 5 x text <= 12 over {a,b}, <= 4 x <= 10 (12) over {a,b,c}. Tags: EVERY schedule (shuttle check_dfs, no bound) of 2-3 threads x Tag::new / StaticTag::get: all tags pairwise distinct, every get() equal, no deadlock; 3.7e4 (3.5e7) schedules.",
             "Trusted: reftex::scope, naive search, Vec<String>; the 110-line seam module (commit b5096a6, cfg texcraft_verif_sched) whose OnceLock follows the contract of std's get_or_init; shuttle explores sequentially consistent interleavings at lock acquire/release (adequate for mutex-protected sections; data races are outside). GroupingVec == is judged only when slot counts agree (derived PartialEq distinguishes [None] from []; not observable behaviour).",
             "3 C20"),
+    "C03": ("exploration",
+            "bounded-exhaustive enumeration of source strings x catcode tables (0, 1, 2 deviations) x end-line characters through the real Lexer and Tracer against a transliteration of TeX's line scanner",
+            "Every string of up to 6 (7) characters over a 9-character alphabet (escape, brace, ^, space, newline, letters, %, non-ASCII) and a ^^-heavy alphabet, up to 4 (6) over a 16-character alphabet (CR, NUL, DEL, ~, digits, TAB), with every single and every pair of category-code reassignments among the characters that occur or can be produced by a ^^ reduction, 7 end-line characters plus a sweep of every ASCII end-line character x its 16 catcodes, both report_end_of_line flags, and a family where the configuration changes between calls: every token is compared on value, line number, column, line text and trace value; lexing must not panic or exhaust trace keys. 4.8e7 (1.36e9) cases.",
+            "Trusted: reftex::scan (tex.web 343-356), self-validated on every run against 57 table cases copied from the repository's lexer tests. Position convention for ^^x characters is the one the crate's own tests pin (column of the last character of the sequence). Known finding D4 (^^xy hex form) matched by predicate on the case + scanner model with hex=false. Strings longer than the bound and more than two simultaneous catcode deviations are outside.",
+            "3 C03"),
+    "C19": ("model_checking",
+            "explicit-state BFS over \\openin/\\read/\\ifeof/\\closein histories with merging on the drained implementation state; bounded-exhaustive enumeration of file trees against an input-stack model and a model-free inlining oracle",
+            "File trees built from an 18-line menu (\\input at every placement, \\endinput incl. inside a macro, groups and conditionals left open, with/without final newline, empty files), depth to 3 (5), fan-out 2, and \\input chains of depth 1..150 for the documented limit of 100, run on the real VM over an in-memory file system and compared with reftex::readtoks and, where inlining is well defined, with the same program with the files pasted in. Read streams: BFS to depth 6 (8) over 34 (46) actions on streams {0,15} ({0,1,15}) plus out-of-range stream numbers and 8 files (missing, empty, with/without final newline, multi-line brace groups, unbalanced), states merged on the observations of a drain program (\\ifeof of all streams and the remaining \\read results), plus every history of length <= 2 (3) without merging. 3e5 (1.2e7) evaluations, 3085 (49624) states.",
+            "Trusted: reftex::readtoks on top of reftex::scan, self-validated against 15 of the repository's input.rs tests. Known findings D14a (\\endinput drops the rest of the line) and D14b (\\ifeof one read early) are pinned by the repository's own tests and matched by predicate + adjusted model. An empty \\input file delivering \\par (TeX 538), recoverable unmatched } and undefined control sequences in file names are outside the statement.",
+            "3 C19"),
     "C04": ("exploration",
             "bounded-exhaustive enumeration of paragraphs against brute force over every break sequence, plus a per-step check of every logged feasible breakpoint",
             "Every list of 4 (5) boxes over a 27-item separator menu (glue lattices, penalties incl. forced/forbidden, discretionaries with pre/post/replace material, kerns, math, adjacent discardables) x width sequences x tolerances (incl. > 10000) x parameter deviations x looseness is broken by the real break_line_single_attempt and compared with reftex::kp: Some iff a feasible sequence exists, the returned sequence is feasible and demerit-minimal among ALL sequences, looseness per TeX 875; every feasible breakpoint the implementation logs must carry the badness/penalty/demerits the model computes. 1.4e7 (3e8) instances.",
